@@ -16,7 +16,7 @@ import (
 // getParams) run against a small model of the Balances interface written here:
 // three accounts and ONE asset id. Every harness is one inductive step: it
 // starts from an ARBITRARY model state satisfying the representation invariant
-// (verifC22Invariant), runs one arbitrary transaction, and - if the transaction
+// (verifC22Shape + sumIs), runs one arbitrary transaction, and - if the transaction
 // was accepted - checks the holder rules against the transaction fields and the
 // PRE-state, checks the post-state against an exact-integer ghost computation,
 // and re-establishes the invariant (so the statements extend to all histories).
@@ -31,7 +31,7 @@ import (
 // that the engine if-converts them instead of forking.
 
 const (
-	verifC22N     = 4 // pool size: zero address + 3 accounts
+	verifC22N     = 5 // pool size: zero address + up to 4 accounts (3 in the quick tier)
 	verifC22Asset = basics.AssetIndex(7)
 )
 
@@ -60,21 +60,27 @@ func verifC22Idx(a basics.Address) int {
 	case 3:
 		vr.Reach("use-acct3")
 		return 3
+	case 4:
+		vr.Reach("use-acct4")
+		return 4
 	}
 	vr.Assume(false) // not a pool address
 	return 0
 }
 
+// number of accounts in play: 3 (quick) or 4 (thorough)
+func verifC22Accounts() int { return vr.Param(3, verifC22N-1) }
+
 func verifC22Pick(label string) uint8 {
 	x := vr.U8(label)
-	vr.Assume(x < verifC22N)
+	vr.Assume(int(x) <= verifC22Accounts())
 	return x
 }
 
 func verifC22PickAccount(label string) uint8 {
 	x := vr.U8(label)
 	vr.Assume(x >= 1)
-	vr.Assume(x < verifC22N)
+	vr.Assume(int(x) <= verifC22Accounts())
 	return x
 }
 
@@ -221,24 +227,40 @@ func (b *verifC22Bal) DeallocateAsset(addr basics.Address, index basics.AssetInd
 	return nil
 }
 
-// sum of all holdings, exact
-func (b *verifC22Bal) sum() vr.Z {
-	s := vr.ZU(0)
-	for i := 1; i < verifC22N; i++ {
-		s = s.Add(vr.ZU(b.acct[i].amount)) // amount is 0 where there is no slot (invariant)
-	}
-	return s
+// The sum of all holdings, stated EXACTLY in 64-bit arithmetic:
+//
+//	a1 + a2 + a3 + a4 = total  (over the integers)
+//	  <=>  the 64-bit partial sums do not carry, and the 64-bit sum is total.
+//
+// (=>: total < 2^64 bounds every partial sum; <=: without a carry the 64-bit
+// sums are the integer sums.) The parts are returned separately: each is
+// an easy query for a bit-vector solver, whereas the same statement over 66-bit
+// zero-extended values (vr.ZU sums) takes it tens of seconds per query.
+func (b *verifC22Bal) sumIs(total uint64) (wrappedEq, noCarry1, noCarry2, noCarry3 bool) {
+	a1, a2, a3, a4 := b.acct[1].amount, b.acct[2].amount, b.acct[3].amount, b.acct[4].amount // amount is 0 where there is no slot (invariant)
+	s1 := a1 + a2
+	s2 := s1 + a3
+	s3 := s2 + a4
+	return s3 == total, s1 >= a1, s2 >= s1, s3 >= s2
 }
 
-// Representation invariant of the model state ("what every real history
-// maintains"), returned as a single condition:
+// supply the holdings must add up to: Total while the asset exists; once it is
+// destroyed only empty slots can remain (destroy needs the creator to hold
+// everything, so every other holding was 0)
+func (b *verifC22Bal) supply() uint64 {
+	if b.exists {
+		return b.params.Total
+	}
+	return 0
+}
+
+// verifC22Shape: the representation invariant of the model state apart from the
+// sum ("what every real history maintains"):
 //   - an account without a slot has the zero holding; the zero address has no slot;
-//   - while the asset exists: the sum of all holdings equals Total, the creator
-//     holds a slot (it can never close out) and records at least one created asset;
-//   - once destroyed, only empty slots can remain (destroy needs the creator to
-//     hold everything, so every other holding was 0);
+//   - while the asset exists the creator holds a slot (it can never close out)
+//     and records at least one created asset;
 //   - an account holding a slot records at least one holding in TotalAssets.
-func verifC22Invariant(b *verifC22Bal) bool {
+func verifC22Shape(b *verifC22Bal) bool {
 	z := b.acct[0]
 	ok := !z.has && z.amount == 0 && !z.frozen
 	for i := 1; i < verifC22N; i++ {
@@ -247,21 +269,32 @@ func verifC22Invariant(b *verifC22Bal) bool {
 		ok = ok && (s.has || empty)
 		ok = ok && (!s.has || s.totalAssets >= 1)
 	}
-	total := uint64(0)
-	if b.exists {
-		total = b.params.Total
-	}
-	sumOK := b.sum().Eq(vr.ZU(total))
-	ok = ok && sumOK
-	c := b.creator
-	inRange := c >= 1 && c < verifC22N
+	c, n := b.creator, verifC22Accounts()
+	inRange := c >= 1 && int(c) <= n
 	if !inRange {
-		c = 1 // keeps the read below in bounds; ok is false anyway if the asset exists
+		c = 1 // keeps the read below in bounds; the result is false anyway if the asset exists
 	}
 	cs := b.acct[c]
 	creatorOK := inRange && cs.has && cs.totalAssetParams >= 1
 	ok = ok && (!b.exists || creatorOK)
 	return ok
+}
+
+// verifC22Check asserts c and then lets the rest of the path use it as a lemma.
+func verifC22Check(tag string, c bool) {
+	vr.Assert(tag, c)
+	vr.Assume(c)
+}
+
+// verifC22AssertInvariant: the full invariant (shape + sum of holdings = supply)
+// holds again in the post-state.
+func verifC22AssertInvariant(b *verifC22Bal, tag string) {
+	eq, nc1, nc2, nc3 := b.sumIs(b.supply())
+	verifC22Check(tag+".sum-no-overflow-1", nc1)
+	verifC22Check(tag+".sum-no-overflow-2", nc2)
+	verifC22Check(tag+".sum-no-overflow-3", nc3)
+	verifC22Check(tag+".sum-is-supply", eq)
+	vr.Assert(tag+".shape", verifC22Shape(b))
 }
 
 func verifC22Params(label string) basics.AssetParams {
@@ -286,8 +319,8 @@ func verifC22State() *verifC22Bal {
 		b.creator = verifC22PickAccount("creator")
 		b.params = verifC22Params("params")
 	}
-	names := [verifC22N]string{"zero", "acct1", "acct2", "acct3"}
-	for i := 1; i < verifC22N; i++ {
+	names := [verifC22N]string{"zero", "acct1", "acct2", "acct3", "acct4"}
+	for i := 1; i <= verifC22Accounts(); i++ { // accounts beyond the tier's bound stay empty
 		var s verifC22Acct
 		s.has = vr.Bool(names[i] + ".has")
 		s.amount = vr.U64(names[i] + ".amount")
@@ -300,7 +333,12 @@ func verifC22State() *verifC22Bal {
 		vr.Assume(s.totalAssetParams < 1<<40)
 		b.acct[i] = s
 	}
-	vr.Assume(verifC22Invariant(b))
+	eq, nc1, nc2, nc3 := b.sumIs(b.supply())
+	vr.Assume(nc1)
+	vr.Assume(nc2)
+	vr.Assume(nc3)
+	vr.Assume(eq)
+	vr.Assume(verifC22Shape(b))
 	return b
 }
 
@@ -328,15 +366,24 @@ func VerifC22TransferPlain() { verifC22Transfer(false, false) }
 //verif:harness prop=C22 reach=done,accepted,rejected,clawback,frozenclawback unwind=8 budget=200 thorough.budget=2400
 func VerifC22TransferClawback() { verifC22Transfer(true, false) }
 
-// close-to set: close-out (possibly combined with a transfer or an opt-in)
-//verif:harness prop=C22 reach=done,accepted,rejected,closed,closedfrozen,optin unwind=8 budget=200 thorough.budget=2400
-func VerifC22TransferClose() { verifC22Transfer(false, true) }
+// close-to set, zero amount: pure close-out (possibly combined with an opt-in)
+//verif:harness prop=C22 reach=done,accepted,rejected,closed,closedfrozen,optin,destroyed unwind=8 budget=200 thorough.budget=2400
+func VerifC22TransferClose() { verifC22TransferAmt(false, true, 1) }
+
+// close-to set, non-zero amount: transfer followed by close-out of the remainder
+//verif:harness prop=C22 reach=done,accepted,rejected,closed,closedfrozen,moved unwind=8 budget=200 thorough.budget=2400
+func VerifC22TransferThenClose() { verifC22TransferAmt(false, true, 2) }
 
 // both set: never accepted
 //verif:harness prop=C22 reach=done,rejected unwind=8 budget=200 thorough.budget=2400
 func VerifC22TransferClawbackClose() { verifC22Transfer(true, true) }
 
 func verifC22Transfer(withAssetSender, withCloseTo bool) {
+	verifC22TransferAmt(withAssetSender, withCloseTo, 0)
+}
+
+// amountKind: 0 = any amount, 1 = zero, 2 = non-zero
+func verifC22TransferAmt(withAssetSender, withCloseTo bool, amountKind int) {
 	b := verifC22State()
 	pre := *b
 
@@ -349,7 +396,13 @@ func verifC22Transfer(withAssetSender, withCloseTo bool) {
 	if withAssetSender {
 		asnd = verifC22PickAccount("assetsender")
 	}
-	amt := vr.U64("amount")
+	amt := uint64(0)
+	if amountKind != 1 {
+		amt = vr.U64("amount")
+	}
+	if amountKind == 2 {
+		vr.Assume(amt != 0)
+	}
 
 	var ct transactions.AssetTransferTxnFields
 	ct.XferAsset = verifC22Asset
@@ -465,10 +518,8 @@ func verifC22Transfer(withAssetSender, withCloseTo bool) {
 	vr.Assert("c22.xfer.slots", slotOK)
 	vr.Assert("c22.xfer.frozen-flags", frozenOK)
 	vr.Assert("c22.xfer.holding-counts", countOK)
-	// conservation
-	vr.Assert("c22.xfer.sum-conserved", b.sum().Eq(pre.sum()))
-	vr.Assert("c22.xfer.sum-is-total", !b.exists || b.sum().Eq(vr.ZU(b.params.Total)))
-	vr.Assert("c22.xfer.invariant", verifC22Invariant(b))
+	// conservation: the holdings still add up to the (unchanged) supply
+	verifC22AssertInvariant(b, "c22.xfer.conserved")
 
 	// witnesses (conditions already decided by the code path first)
 	if claw {
@@ -541,9 +592,9 @@ func VerifC22Create() {
 	}
 	vr.Assert("c22.create.creator-holds-everything", holdOK)
 	vr.Assert("c22.create.counts", countOK)
-	vr.Assert("c22.create.sum-is-total", b.sum().Eq(vr.ZU(cc.AssetParams.Total)))
+	vr.Assert("c22.create.supply-is-requested-total", b.supply() == cc.AssetParams.Total)
 	vr.Assert("c22.create.allocation-reported", b.allocGlobal == 1 && b.allocLocal == 1 && b.deallocGlobal == 0 && b.deallocLocal == 0)
-	vr.Assert("c22.create.invariant", verifC22Invariant(b))
+	verifC22AssertInvariant(b, "c22.create.invariant")
 	vr.Reach("done")
 }
 
@@ -629,9 +680,8 @@ func VerifC22ConfigDestroy() {
 			sameOK = sameOK && b.acct[k] == pre.acct[k]
 		}
 		vr.Assert("c22.config.accounts-untouched", sameOK)
-		vr.Assert("c22.config.sum-is-total", b.sum().Eq(vr.ZU(b.params.Total)))
 	}
-	vr.Assert("c22.config.invariant", verifC22Invariant(b))
+	verifC22AssertInvariant(b, "c22.config.invariant")
 	vr.Reach("done")
 }
 
@@ -673,7 +723,6 @@ func VerifC22Freeze() {
 		sameOK = sameOK && b.acct[k] == want
 	}
 	vr.Assert("c22.freeze.only-the-flag-changes", sameOK)
-	vr.Assert("c22.freeze.sum-is-total", b.sum().Eq(vr.ZU(b.params.Total)))
-	vr.Assert("c22.freeze.invariant", verifC22Invariant(b))
+	verifC22AssertInvariant(b, "c22.freeze.invariant")
 	vr.Reach("done")
 }
